@@ -129,7 +129,8 @@ def replay_sentence(mm, key, what_prefix, extra=()):
     published formulation by more than 1e-4 of its terms (thin and thick wires, free space and ground)."""
     # G19 with a quarter of its radii: a thin (r <= 1e-4 wavelength) and a thick wire in ONE model
     todo = [(g, sr, None) for g in ('G2', 'G9', 'G8') for sr in (1.0, 4.0)] + [('G19', 0.25, None), ('G20', 0.25, None)]
-    todo += [('given', 1.0, e) for e in extra]
+    todo += [('given', 1.0, e) for e in extra if callable(e)]
+    todo += [(e, 1.0, None) for e in extra if not callable(e)]
     for gname, scale_r, given in todo:
         if True:
             if given is not None:
@@ -351,6 +352,59 @@ def nvg_flag(ck, sh, mm):
         prove_paths(ck, 'shortcut-flag-gnd%d' % gnd, fn, goals, replay, max_paths=16)
 
 
+def shortcut_preds(ck, sh, mm):
+    """The fill copies entries between pairs of pulses of one object when the code's own per-pulse predicates say that the two segments
+    of the pulse have the same direction and the same length.  The real predicates run on a pulse whose two segments have ARBITRARY
+    direction vectors and lengths: whenever a predicate answers 'same', they are the same (one-sided: answering 'different' for equal
+    segments only costs time).  A candidate is replayed on the members whose neighbouring segments differ in direction (elliptical
+    helix, arc) or in length (tapered wires) against the adaptively integrated formulation."""
+    P = sh.pulse
+
+    class Geo:
+        n = 0
+        tag = 1
+
+    class Seg:
+        pass
+
+    def fn():
+        c = symx.ctx()
+        d1 = [SR.var('d1_%d' % i) for i in range(3)]
+        d2 = [SR.var('d2_%d' % i) for i in range(3)]
+        l1, l2 = SR.var('l1'), SR.var('l2')
+        c.assume(z3.And(l1.n > 0, l2.n > 0))
+        for d in (d1, d2):
+            c.assume(core.eq_term(d[0] * d[0] + d[1] * d[1] + d[2] * d[2], SR.lift(1.0)))
+        g = Geo()
+        segs = []
+        for d, l in ((d1, l1), (d2, l2)):
+            sg = Seg()
+            sg.geobj = g
+            sg.dirvec = np.empty(3, dtype=object)
+            sg.dirvec[:] = d
+            sg.seg_len = l
+            segs.append(sg)
+        cont = P.Pulse_Container()
+        z = np.zeros(3)
+        P.Pulse(cont, z, z, z, segs[0], segs[1])
+        with symx.object_arrays():
+            sd = bool(np.asarray(cont.same_dir).reshape(-1)[0])
+            sl = bool(np.asarray(cont.same_len).reshape(-1)[0])
+        return dict(inputs=dict(d1=d1, d2=d2, l1=l1, l2=l2), sd=sd, sl=sl)
+
+    def goals(o):
+        i = o['inputs']
+        return [("'same direction' only for equal direction vectors", z3.Or(z3.BoolVal(not o['sd']), z3.And(*[core.eq_term(a, b) for a, b in zip(i['d1'], i['d2'])]))),
+                ("'same length' only for equal lengths", z3.Or(z3.BoolVal(not o['sl']), core.eq_term(i['l1'], i['l2'])))]
+
+    def replay(conc, gn, out):
+        return replay_sentence(mm, 'C02:shortcut-predicate:%s' % ('direction' if 'direction' in gn else 'length'),
+                               'segments with directions %r / %r and lengths %r / %r are taken for the same by the fill shortcut'
+                               % ([float(x) for x in conc['d1']], [float(x) for x in conc['d2']], float(conc['l1']), float(conc['l2'])),
+                               extra=('G13', 'G12', 'G11', 'G21'))
+    prove_paths(ck, 'shortcut-predicates', fn, goals, replay, max_paths=64)
+
+
 def main(args):
     ck = Check('C02', args)
     ck.shadow_stats = symx.load().stats
@@ -364,7 +418,7 @@ def main(args):
     parts += [('gauss_exact', ())]
     parts += [('kernel', (th, im)) for th in (True, False) for im in (False, True)]
     parts += [('kernel', (th, im, True)) for th in (True, False) for im in (False, True)]
-    parts += [('nvg_flag', ())]
+    parts += [('nvg_flag', ()), ('shortcut_preds', ())]
     run_parallel(ck, 'checks.c02', parts)
     ck.assumptions += [
         'geometry: catalogue members with 2x (quick) / 3x (thorough) the catalogue segment counts, concrete coordinates',
